@@ -548,7 +548,15 @@ def run_history(hist, tmp, uid, do_write, seen_sigs):
             problem = ("rejected-op-left-trace", [], "%s was refused (%s) but the session changed" % (env.lines[-1][0], exc))
         if refmodes is not None and accepted:
             after = _refmodes(env, b, ("upd", op[1], newtok or (op[3] if op[0] == "upd" and op[3] else op[2]), None))
-            out.monitors.append(("update-keeps-refmode", sorted(map(repr, refmodes)) == sorted(map(repr, after))))
+            # only the references that were bound to the updated value are compared (the new value may already have been
+            # bound to other names, which then show up in `after` as well)
+            _keys = {tuple(r[:2]) for r in refmodes}
+            _ok = sorted(map(repr, refmodes)) == sorted(repr(r) for r in after if tuple(r[:2]) in _keys)
+            out.monitors.append(("update-keeps-refmode", _ok))
+            if not _ok:
+                import os
+                if os.environ.get("C18_DEBUG"):
+                    print("REFMODE-DIFF", sorted(map(repr, refmodes)), "->", sorted(map(repr, after)), [l[0] for l in env.lines][-6:], flush=True)
         if problem is not None:
             tag, extra, text = problem
             out.fail_step = i + 1
